@@ -343,7 +343,7 @@ def run_check(pid, tier, seed, replay):
         if sp in ("TraceRef", "TraceDiff"):
             nvalid += 1
             for f in r["fails"]:
-                if pid in f["props"] or f["monitor"] in plan.get("monitors", []):
+                if pid in f["props"] or f["monitor"] in plan.get("monitors", []) or plan.get("any_monitor"):
                     hit = [k for k in known if known_match(k, pid, f, t["elem"])]
                     if hit:
                         known_hits.append((hit[0], f, t))
@@ -378,7 +378,7 @@ def run_check(pid, tier, seed, replay):
     shown = set()
     for v in violations:
         tag = (v["monitor"], v["op"])
-        if tag in shown and len(shown) >= 1:
+        if tag in shown or len(shown) >= 8:
             continue
         shown.add(tag)
         dest = os.path.join(WORK, "replays", "%s-%s-%d.ndjson" % (pid, v["monitor"], len(shown)))
